@@ -10,6 +10,7 @@ import (
 	"sort"
 	"strings"
 	"sync"
+	"sync/atomic"
 	"time"
 
 	"github.com/openconfig/gnmi/subscribe"
@@ -76,9 +77,15 @@ func runStall(cs *Case) *Obs {
 	obs := &Obs{Ended: make([]bool, n), Deq: make([][][2]int, n), Coal: make([]int, n), Returned: true}
 	var e *engine
 	var dmu sync.Mutex
+	var phase2 atomic.Bool
 	timeout := time.Duration(cs.TimeoutMs) * time.Millisecond
 	e = newEngine(cs, subscribe.WithTimeout(timeout), subscribe.WithStats(),
 		subscribe.WithClientStatsTest(func(dup, q int64) {
+			// only phase 2 is a known schedule: while a subscription starts, its walk
+			// and its sender run side by side and Len() is read after Next returned
+			if !phase2.Load() {
+				return
+			}
 			g := curGoid()
 			for i, st := range e.streams {
 				st.mu.Lock()
@@ -148,8 +155,7 @@ func runStall(cs *Case) *Obs {
 	}
 	var emu sync.Mutex
 	// the subscribers start one after the other and drain their snapshots
-	for i := range cs.Subs {
-		i := i
+	startSub := func(i int) {
 		started[i] = true
 		go func() {
 			defer close(done[i])
@@ -169,7 +175,15 @@ func runStall(cs *Case) *Obs {
 			obs.Bad = "subscriber did not reach its sync"
 		}
 	}
+	nearly := n
+	if cs.Late {
+		nearly = n - 1
+	}
+	for i := 0; i < nearly; i++ {
+		startSub(i)
+	}
 	// arm the stalls, then the phase-2 writes, one at a time
+	phase2.Store(true)
 	bmu.Lock()
 	for i := range armed {
 		armed[i] = true
@@ -222,6 +236,9 @@ func runStall(cs *Case) *Obs {
 				select {
 				case <-done[i]:
 				case <-time.After(5 * time.Second):
+					if obs.Bad == "" {
+						obs.Bad = "a subscription whose Send stays blocked did not end within 5 s (timeout 100 ms)"
+					}
 				}
 			}
 		}
@@ -230,6 +247,11 @@ func runStall(cs *Case) *Obs {
 	close(release)
 	if obs.Bad == "" && !waitParked(e, live, false) {
 		obs.Bad = "senders did not settle after the stalls were released"
+	}
+	// a subscriber that starts now gets its snapshot straight from the cache
+	phase2.Store(false)
+	if cs.Late && obs.Bad == "" {
+		startSub(n - 1)
 	}
 	for k, v := range e.srv.ClientStats() {
 		for i := range cs.Subs {
@@ -281,6 +303,7 @@ type emitter struct {
 	shard int
 	meta  *vh.Meta
 	limit int
+	bad   int // cases with a hang / panic so far: after three the run stops generating (each costs 5 s)
 }
 
 func (e *emitter) flush() {
@@ -429,7 +452,7 @@ func (e *emitter) caseTerm(cs *Case, obs *Obs) string {
 		coal[i] = natT(c)
 	}
 	b.WriteString(vh.List(coal) + " ")
-	b.WriteString(vh.Bool(obs.Returned) + " " + vh.Bool(bad))
+	b.WriteString(vh.Bool(obs.Returned) + " " + vh.Bool(bad) + " " + vh.Bool(cs.Late))
 	return b.String()
 }
 
@@ -461,6 +484,7 @@ func (e *emitter) run(cs *Case) {
 	}
 	if obs.Bad != "" {
 		e.meta.Hist("bad")
+		e.bad++
 	}
 	if e.cf.Len() >= e.limit {
 		e.flush()
@@ -512,7 +536,17 @@ func genCase(r *vh.Rand, dead bool) *Case {
 		sc := SubCfg{Qs: [][]string{q}, UO: r.Chance(1, 6)}
 		if r.Chance(1, 4) {
 			q2 := append([]string{t}, queryShapes[r.Intn(len(queryShapes))]...)
-			if pstr(q2) != pstr(q) {
+			// the two paths select disjoint leaves: a leaf selected twice by one walk is
+			// inserted twice, and the sender running beside the walk may or may not
+			// dequeue it in between (C04's free-running family covers overlapping paths)
+			overlap := false
+			for _, l := range leafUniverse {
+				p := append([]string{t}, l...)
+				if covers(q, p) && covers(q2, p) {
+					overlap = true
+				}
+			}
+			if !overlap {
 				sc.Qs = append(sc.Qs, q2)
 			}
 		}
@@ -526,6 +560,9 @@ func genCase(r *vh.Rand, dead bool) *Case {
 		}
 		cs.Stall = append(cs.Stall, k)
 	}
+	cs.Subs = append(cs.Subs, SubCfg{Qs: [][]string{{t}}})
+	cs.Stall = append(cs.Stall, 0)
+	cs.Late = true
 	return cs
 }
 
@@ -583,10 +620,10 @@ func main() {
 	if o.Thorough() {
 		nslow, ndead = 12000, 1500
 	}
-	for i := 0; i < nslow; i++ {
+	for i := 0; i < nslow && e.bad < 3; i++ {
 		e.run(genCase(r.Fork(), false))
 	}
-	for i := 0; i < ndead; i++ {
+	for i := 0; i < ndead && e.bad < 3; i++ {
 		e.run(genCase(r.Fork(), true))
 	}
 	e.flush()
